@@ -309,7 +309,9 @@ fn canonicalize(
 pub(crate) fn canonicalize_olpc(jsn: &serde_json::Value) -> Result<Vec<u8>> {
     let converted = convert(jsn).map_err(Error::Opaque)?;
     let mut buf = Vec::new();
-    converted.write_with(&mut buf, true).map_err(Error::Opaque)?;
+    converted
+        .write_with(&mut buf, true)
+        .map_err(Error::Opaque)?;
     Ok(buf)
 }
 
